@@ -6,9 +6,11 @@ import (
 	"encoding/json"
 	"flag"
 	"fmt"
+	"io/ioutil"
 	"math/rand"
 	"os"
 	"os/exec"
+	"path/filepath"
 	"runtime"
 	"sort"
 	"strconv"
@@ -148,8 +150,57 @@ func catalogue() []concOp {
 			}}
 		}})
 	}
+	// the file helper on sibling destinations: the same list written to movie.srt, movie.vtt, ... of one directory by
+	// independent calls (what a batch converter does)
+	for _, f := range writeFormats {
+		f := f
+		ops = append(ops, concOp{"filewrite:movie." + f, func() concCall {
+			s := buildW(wCase{Styles: []wStyle{{Attrs: []int{1}}}, Meta: true}, rand.New(rand.NewSource(3)))
+			return concCall{label: "filewrite:movie." + f, run: func() string {
+				path := filepath.Join(siblingDir(), "movie."+f)
+				if err := s.Write(path); err != nil {
+					return "ERR"
+				}
+				b, err := ioutil.ReadFile(path)
+				if err != nil {
+					return "ERR"
+				}
+				if f == "stl" && len(b) >= 1024 {
+					return dig(b[:224]) + dig(b[236:]) // without the two dates of the GSI block
+				}
+				return dig(b)
+			}}
+		}})
+	}
 	_ = rr
 	return ops
+}
+
+var (
+	siblingOnce sync.Once
+	siblingPath string
+)
+
+// siblingDir: one directory per process for the filewrite operations
+func siblingDir() string {
+	siblingOnce.Do(func() {
+		siblingPath, _ = ioutil.TempDir("", "verif-siblings-")
+	})
+	return siblingPath
+}
+
+// malformedDocs: documents every reader rejects, each at another line and for another reason
+func malformedDocs() []doc {
+	return []doc{
+		{Name: "noend.srt", Fmt: "srt", Data: []byte("1\n00:00:01,000 -->\nHello\n")},
+		{Name: "noend.vtt", Fmt: "vtt", Data: []byte("WEBVTT\n\nNOTE one\n\n1\n00:00:01.000 --> 00:00:02.000\nfine\n\n00:00:03.000 -->\nHello\n")},
+		{Name: "badtime.srt", Fmt: "srt", Data: []byte("1\n00:00:01,000 --> 00:00:02,000\nfine\n\n2\n00:0x:03,000 --> 00:00:04,000\nHello\n")},
+		{Name: "badtime.vtt", Fmt: "vtt", Data: []byte("WEBVTT\n\n00:00:0y.000 --> 00:00:02.000\nHello\n")},
+		{Name: "unkregion.vtt", Fmt: "vtt", Data: []byte("WEBVTT\n\n\n\n00:00:01.000 --> 00:00:02.000 region:nowhere\nHello\n")},
+		{Name: "badtime.ssa", Fmt: "ssa", Data: []byte("[Script Info]\n\n[Events]\nFormat: Marked, Start, End, Style, Name, MarginL, MarginR, MarginV, Effect, Text\nDialogue: Marked=0,0:00:0z.00,0:00:02.00,,,0,0,0,,Hello\n")},
+		{Name: "nobegin.ttml", Fmt: "ttml", Data: []byte(`<tt xmlns="http://www.w3.org/ns/ttml"><body><div><p end="00:00:02.000">Hello</p></div></body></tt>`)},
+		{Name: "short.stl", Fmt: "stl", Data: []byte("850STL25.01")},
+	}
 }
 
 type aliasProbe struct {
@@ -349,6 +400,11 @@ type concEvent struct {
 }
 
 func cmdConc(args []string) error {
+	defer func() {
+		if siblingPath != "" {
+			os.RemoveAll(siblingPath)
+		}
+	}()
 	fs := flag.NewFlagSet("conc", flag.ExitOnError)
 	in := fs.String("cases", "", "schedules ndjson ({sched:[...]})")
 	out := fs.String("out", "", "trace ndjson")
@@ -416,6 +472,30 @@ func cmdConc(args []string) error {
 			d = "changed"
 		}
 		put(concEvent{Mode: "alias", Call: pr.label, Digest: d, Fpb: fpb, Fpa: astisub.VerifTablesFingerprint()})
+	}
+	// an error returned by one call is not rewritten by a later call: the message of the first is read again after a
+	// second call has failed elsewhere
+	bad := malformedDocs()
+	if *lean {
+		bad = nil
+	}
+	for i, a := range bad {
+		for j, b := range bad {
+			if i == j {
+				continue
+			}
+			fpb := astisub.VerifTablesFingerprint()
+			_, errA := readDoc(a.Fmt, bytes.NewReader(a.Data))
+			d := "same"
+			if errA != nil {
+				before := errA.Error()
+				_, errB := readDoc(b.Fmt, bytes.NewReader(b.Data))
+				if errA.Error() != before || (errB != nil && errB == errA) {
+					d = "changed"
+				}
+			}
+			put(concEvent{Mode: "alias", Call: "error-of-" + a.Name + "-after-" + b.Name, Digest: d, Fpb: fpb, Fpa: astisub.VerifTablesFingerprint()})
+		}
 	}
 	// and once more in the opposite order: a call must not see what an earlier call of the same process left behind,
 	// whichever of two documents came first
